@@ -195,33 +195,59 @@ theorem C17_constants :
 
 /-! ## non-contextual -/
 
-/-- **C17_noncontextual** (`_partial`: single range). With one compiled range (or none) the
-    non-contextual subtable maps every glyph of the buffer through the lookup — glyphs the lookup does not
-    cover stay — and touches nothing else (clusters, order, length, the rest of the vector).
-    Full statement (false of the code, see `known_C17_noncontextual_range`, D17): with several ranges,
-    glyph `i` is mapped iff the range containing *its own* cluster has `flags & subtable_flags ≠ 0`. -/
-theorem C17_noncontextual_partial (lk : Lookup) (rf : Array Range) (sf : Nat) (b : Buf)
-    (hrf : rf.size ≤ 1) (hb : b.len ≤ b.info.size) :
+/-- **C17_noncontextual.** The non-contextual subtable maps a glyph through the lookup iff the subtable is
+    switched on for *that glyph's* cluster — always, when the chain has a single compiled range (the chain
+    loop has already tested it); otherwise iff the range containing the glyph's cluster has
+    `flags & subtable_flags ≠ 0`. Glyphs the lookup does not cover stay; nothing else changes (clusters, order,
+    length, the rest of the vector). `Tiles rf hi`: the ranges tile [0, hi] as `compile` produces them.
+    (Before the repair of D17 the range of `cur(0)` was used for every glyph and this was false.) -/
+theorem C17_noncontextual (lk : Lookup) (rf : Array Range) (sf hi : Nat) (b : Buf) (hb : b.len ≤ b.info.size)
+    (hrf : rf.size ≤ 1 ∨ (Tiles rf hi ∧ ∀ (i : Nat) (g : G), i < b.len → b.info[i]? = some g → g.cl ≤ hi)) :
     ∃ info', nonContextual lk rf sf b = .ok { b with info := info' } ∧ info'.size = b.info.size ∧
       ∀ i, info'[i]? =
-        if i < b.len then (b.info[i]?).map (fun g => { g with gid := (lk (glyph16 g.gid)).getD g.gid })
+        if i < b.len then (b.info[i]?).map (fun g => ncMap lk (decide (rf.size ≤ 1) || enabledAt rf sf g.cl) g)
         else b.info[i]? := by
-  obtain ⟨info', e, hs, hk⟩ := nc_loop lk rf sf b b.len hb
-  refine ⟨info', ?_, hs, hk⟩
-  have : ¬ rf.size > 1 := by omega
-  simp [nonContextual, this, e, bind, Except.bind, pure, Except.pure]
+  by_cases h1 : rf.size ≤ 1
+  · obtain ⟨info', e, hs, hk⟩ := nc_loop lk rf sf b b.len hb
+    refine ⟨info', ?_, hs, ?_⟩
+    · have : ¬ rf.size > 1 := by omega
+      simp [nonContextual, this, e, bind, Except.bind, pure, Except.pure]
+    · intro i; rw [hk]; simp [h1, ncMap]
+  · rcases hrf with h | ⟨ht, hcl⟩
+    · exact absurd h h1
+    · obtain ⟨info', lr, e, _, hs, hk⟩ := nc_loop_ranges lk rf sf hi b ht hcl b.len (Nat.le_refl _) hb 0 (by omega)
+      refine ⟨info', ?_, hs, ?_⟩
+      · have : rf.size > 1 := by omega
+        simp [nonContextual, this, e, bind, Except.bind, pure, Except.pure]
+      · intro i; rw [hk]; simp [h1]
 
-example : ∃ (rf : Array Range) (b : Buf), rf.size ≤ 1 ∧ b.len ≤ b.info.size ∧ b.len = 2 :=
-  ⟨#[⟨1, 0, 0xFFFFFFFF⟩], { (default : Buf) with info := #[⟨3, 0⟩, ⟨4, 1⟩], len := 2 }, by decide, by decide, rfl⟩
+/-- non-vacuity: the three ranges `C17_flags_range` produces tile [0, u32::MAX]. -/
+theorem C17_flags_range_tiles (d f s e : Nat) (hs : 0 < s) (hse : s < e) (he : e < 0xFFFFFFFF) :
+    Tiles #[⟨d, 0, s - 1⟩, ⟨f, s, e - 1⟩, ⟨d, e, 0xFFFFFFFF⟩] 0xFFFFFFFF := by
+  constructor
+  · simp
+  · intro r h; simp at h; subst h; rfl
+  · intro k r h
+    match k, h with
+    | 0, h => simp at h; subst h; simp
+    | 1, h => simp at h; subst h; simp; omega
+    | 2, h => simp at h; subst h; simp; omega
+    | k + 3, h => simp at h
+  · intro k r r' h h'
+    match k, h, h' with
+    | 0, h, h' => simp at h h'; subst h; subst h'; simp; omega
+    | 1, h, h' => simp at h h'; subst h; subst h'; simp; omega
+    | k + 2, h, h' => simp at h'
+  · intro r h; simp at h; subst h; rfl
 
-/-- **known_C17_noncontextual_range** (D17). Two ranges: clusters 0–1 switched off, clusters ≥ 2 switched
-    on. The glyphs at clusters 2 and 3 are in the enabled range and the lookup covers them, yet nothing is
-    substituted: the range is looked up for `cur(0)` — the glyph at `idx = 0` — for every position. -/
-theorem known_C17_noncontextual_range :
-    let rf : Array Range := #[⟨0, 0, 1⟩, ⟨1, 2, 0xFFFFFFFF⟩]
-    let b : Buf := { (default : Buf) with info := #[⟨1, 0⟩, ⟨2, 1⟩, ⟨3, 2⟩, ⟨4, 3⟩], len := 4 }
-    nonContextual (fun g => some (g + 100)) rf 1 b = .ok b := by
-  rfl
+example : ∃ (rf : Array Range) (b : Buf), Tiles rf 0xFFFFFFFF ∧ 1 < rf.size ∧ b.len ≤ b.info.size ∧ b.len = 2 ∧
+    ∀ (i : Nat) (g : G), i < b.len → b.info[i]? = some g → g.cl ≤ 0xFFFFFFFF :=
+  ⟨#[⟨0, 0, 1⟩, ⟨1, 2, 4⟩, ⟨0, 5, 0xFFFFFFFF⟩], { (default : Buf) with info := #[⟨3, 0⟩, ⟨4, 3⟩], len := 2 },
+   C17_flags_range_tiles 0 1 2 5 (by decide) (by decide) (by decide), by decide, by decide, rfl,
+   by intro i g hi h
+      match i, hi, h with
+      | 0, _, h => simp at h; subst h; decide
+      | 1, _, h => simp at h; subst h; decide⟩
 
 /-! ## the reverse bracket -/
 
